@@ -13,7 +13,7 @@ class C01(PropCheck):
     ]
 
     def correspond(self, tier, seed, rng):
-        n = 400 if tier == "quick" else 6000
+        n = 400 if tier == "quick" else 30000
         scenarios = [hl.gen_scenario(rng, big=(tier != "quick")) for _ in range(n)]
         batches = [scenarios[i::core.NPROC] for i in range(core.NPROC)]
         results = []
